@@ -841,6 +841,116 @@ func c20GenPlain(r *vrng, id int) *c20Case {
 	return c
 }
 
+// mode 1: calls that change nothing between the others -- unregistering a listener that
+// is not registered on the subject (never was, or was unregistered already: sessions are
+// closed through several paths), registering one that is registered already -- on subjects
+// that have few listeners.  The listeners that stay registered must not notice (clause a).
+func c20GenUnbalanced(r *vrng, id int) *c20Case {
+	c := &c20Case{Id: id, Mode: 1, Gen: "unbalanced", NL: 3 + r.intn(3)}
+	c.Targets = c20GenTargets(r, 1+r.intn(3), true)
+	n := 14 + r.intn(26)
+	reg := map[[2]int]bool{}
+	count := func(t int) int {
+		k := 0
+		for l := 0; l < c.NL; l++ {
+			if reg[[2]int{l, t}] {
+				k++
+			}
+		}
+		return k
+	}
+	m := 1
+	for i := 0; i < n; i++ {
+		t := r.intn(len(c.Targets))
+		l := r.intn(c.NL)
+		x := r.intn(100)
+		switch {
+		case x < 30:
+			c.Ops = append(c.Ops, c20Op{K: "pub", T: t, M: m})
+			m++
+		case x < 52:
+			// register (a fifth of them for a listener that is registered already); keep the subjects small
+			if reg[[2]int{l, t}] && !r.chance(20) || count(t) >= 3 && !reg[[2]int{l, t}] {
+				continue
+			}
+			c.Ops = append(c.Ops, c20Op{K: "reg", T: t, L: l})
+			reg[[2]int{l, t}] = true
+		case x < 66:
+			for try := 0; try < 4 && !reg[[2]int{l, t}]; try++ {
+				t, l = r.intn(len(c.Targets)), r.intn(c.NL)
+			}
+			c.Ops = append(c.Ops, c20Op{K: "unreg", T: t, L: l})
+			was := reg[[2]int{l, t}]
+			reg[[2]int{l, t}] = false
+			if was && r.chance(45) {
+				// the same call again (right away, or after a publication)
+				if r.chance(40) {
+					c.Ops = append(c.Ops, c20Op{K: "pub", T: t, M: m})
+					m++
+				}
+				c.Ops = append(c.Ops, c20Op{K: "unreg", T: t, L: l})
+			}
+			if count(t) > 0 {
+				c.Ops = append(c.Ops, c20Op{K: "pub", T: t, M: m})
+				m++
+			}
+		case x < 92:
+			// unregister a listener that is not registered on that subject, preferably on a
+			// subject where one or two others are
+			for try := 0; try < 6 && (reg[[2]int{l, t}] || count(t) == 0); try++ {
+				t, l = r.intn(len(c.Targets)), r.intn(c.NL)
+			}
+			if reg[[2]int{l, t}] {
+				continue
+			}
+			c.Ops = append(c.Ops, c20Op{K: "unreg", T: t, L: l})
+			c.Ops = append(c.Ops, c20Op{K: "pub", T: t, M: m})
+			m++
+		default:
+			c.Ops = append(c.Ops, c20Op{K: "digest"})
+		}
+	}
+	return c
+}
+
+// the same, directed: for each of the four subject kinds a subject with one, two and three
+// listeners, one of them unregistered twice; then a listener that never was registered; a
+// listener registered twice and unregistered once; unregistration after the subscriber is gone
+func c20DirectedUnbalanced(id int) []*c20Case {
+	var cs []*c20Case
+	for k := 0; k < 4; k++ {
+		for stay := 1; stay <= 3; stay++ {
+			t := c20Target{K: k, Id: "u1", B: "b1"}
+			if k == 3 {
+				t = c20Target{K: 3, Id: "s1"}
+			}
+			c := &c20Case{Id: id, Mode: 1, Gen: "unbalanced-directed", NL: stay + 2, Targets: []c20Target{t}}
+			id++
+			leaver, never := stay, stay+1
+			for l := 0; l <= stay; l++ {
+				c.Ops = append(c.Ops, c20Op{K: "reg", T: 0, L: l})
+			}
+			c.Ops = append(c.Ops,
+				c20Op{K: "pub", T: 0, M: 1},
+				c20Op{K: "unreg", T: 0, L: leaver}, c20Op{K: "pub", T: 0, M: 2},
+				c20Op{K: "unreg", T: 0, L: leaver}, c20Op{K: "pub", T: 0, M: 3},
+				c20Op{K: "unreg", T: 0, L: never}, c20Op{K: "pub", T: 0, M: 4},
+				c20Op{K: "reg", T: 0, L: 0}, c20Op{K: "pub", T: 0, M: 5},
+				c20Op{K: "digest"},
+				c20Op{K: "unreg", T: 0, L: 0}, c20Op{K: "pub", T: 0, M: 6})
+			for l := 1; l < stay; l++ {
+				c.Ops = append(c.Ops, c20Op{K: "unreg", T: 0, L: l})
+			}
+			c.Ops = append(c.Ops,
+				c20Op{K: "pub", T: 0, M: 7},
+				c20Op{K: "unreg", T: 0, L: 0}, c20Op{K: "digest"},
+				c20Op{K: "reg", T: 0, L: leaver}, c20Op{K: "pub", T: 0, M: 8}, c20Op{K: "digest"})
+			cs = append(cs, c)
+		}
+	}
+	return cs
+}
+
 // mode 0: callbacks that block, anything goes
 func c20GenGated(r *vrng, id int) *c20Case {
 	c := &c20Case{Id: id, Mode: 0, Gen: "gated", NL: 2 + r.intn(4)}
@@ -1075,11 +1185,19 @@ func TestVerifC20(t *testing.T) {
 			cases = append(cases, &cs[i])
 		}
 	} else {
-		nPlain, nGated, nOver, nBurst, nRereg, nConc := 120, 120, 6, 4, 25, 40
+		nPlain, nGated, nOver, nBurst, nRereg, nConc, nUnbal := 120, 120, 6, 4, 25, 40, 36
 		if env.thorough() {
-			nPlain, nGated, nOver, nBurst, nRereg, nConc = 1500, 1500, 30, 30, 300, 500
+			nPlain, nGated, nOver, nBurst, nRereg, nConc, nUnbal = 1500, 1500, 30, 30, 300, 500, 600
 		}
 		id := 0
+		// calls that change nothing (directed, then seeded); ids from 6000000 so that the seeded
+		// streams of the other generators stay what they were
+		ub := c20DirectedUnbalanced(6000000)
+		for i := 0; i < nUnbal; i++ {
+			uid := 6000100 + i
+			ub = append(ub, c20GenUnbalanced(newVrng(env.seed, uint64(uid)), uid))
+		}
+		cases = append(cases, ub...)
 		for i := 0; i < nPlain; i++ {
 			cases = append(cases, c20GenPlain(newVrng(env.seed, uint64(id)), id))
 			id++
